@@ -206,7 +206,13 @@ def segment_twin_trees(rnd, n):
         if rnd.random() < 0.4:
             args.insert(rnd.randrange(len(args) + 1), {'k': 'id', 'w': w, 'n': 'z%d' % w})
         t = {'k': 'op', 'w': w, 'o': rnd.choice(AC), 'u': 0, 'a': args}
-        v = dict(t, a=list(reversed(args)))
+        if addr['k'] == 'op' and rnd.random() < 0.5:
+            # the variant re-orders the operands of the ADDRESS of every cell (one spelling may already be canonical, the other
+            # is rebuilt by the simplifier: the rebuilt cell must be the same cell, selector included)
+            raddr = dict(addr, a=list(reversed(addr['a'])))
+            v = dict(t, a=[dict(x, a=[raddr]) if x['k'] == 'mem' else x for x in args])
+        else:
+            v = dict(t, a=list(reversed(args)))
         if w == 32 and rnd.random() < 0.3:       # the twins inside an address
             t, v = cell(8, None, t), cell(8, None, v)
         out.append([t, v])
